@@ -59,7 +59,7 @@ def cells(tier, seed):
     for n in range(0, b["sorted_len"] + 1):
         for mode in ("default", "key", "cmp", "keycmp"):
             out.append({"k": "sorted", "n": n, "mode": mode})
-    for what in ("set", "mapkeys"):
+    for what in ("set", "mapkeys", "setmix", "mapkeysmix"):
         out.append({"k": "enum", "what": what})
     for n in range(2, 4 if tier == "quick" else 5):
         for ki in range(len(MIXKEYS)):
@@ -308,6 +308,31 @@ def run_enum(ctx, cell):
     what = cell["what"]
     key = "C07:enum:" + what
     xs = [ctx.int("e%d" % i, 0, 3) for i in range(3)]
+    if what.endswith("mix"):
+        # ints and decimals together: numeric order across the two representations
+        pool = [(vint(1), 2), (vdec(1.5), 3), (vint(2), 4), (vdec(0.5), 1), (vint(-1), -2), (vdec(2.5), 5), (vdec(-3.0), -6)]
+        sel = [pool[ctx.choice("m%d" % i, len(pool))] for i in range(3)]
+        elems = [v for v, _ in sel]
+        xs = [k_ for _, k_ in sel]          # twice the numeric value: order key
+        what = what[:-3]
+        if what == "set":
+            coll = vset(elems)
+            text = "def r = []; for x in s do append(r, x) end; [r, [x for x in s], list(s), string(s)]"
+        else:
+            coll = vmap([(v, vint(7)) for v in elems])
+            text = "def r = []; for x in keys s do append(r, x) end; [r, [x for x in keys s], " \
+                   "[e[0] for e in entries s], string(set(s))]"
+        out = run_ckl(text, {"s": coll})
+        detail = lambda: {"elements": [str(v) for v in elems], "got": ctx.plain(out)}
+        if out.kind != "ok":
+            ctx.fail("%s:%s:%s" % (key, out.kind, out.hostname() or "runtime-error"), detail)
+            return out
+        for lst in out.value.value[:3]:
+            vals = lst.value
+            for i in range(len(vals) - 1):
+                ctx.check(vals[i] < vals[i + 1], key + ":mixed-numbers-not-ascending", detail)
+            ctx.check(len(vals) == len(set(xs)), key + ":wrong-size", detail)
+        return out
     if what == "set":
         coll = vset([vint(x) for x in xs])
         text = "def r = []; for x in s do append(r, x) end; [r, [x for x in s], list(s), string(s)]"
